@@ -410,6 +410,67 @@ def gen_c04(tier, rng):
         x1 = E.mul(k, E.G)[0]
         e = (r - x1) % N
         yield ('valid-with-limb-structured-r+s', 'sm2_verify_raw %s %s %s%s' % (E.enc(E.mul(d, E.G)), H(e), H(r), H(s_)), 'OK')
+    # a VALID signature whose two summands [s]G and [t]P are DIFFERENT points with the same y (r = 0 in the addition formulas although the
+    # points are neither equal nor opposite): P = [t^-1]Q with Q the same-y partner of S = [s]G
+    made = 0
+    for _ in range(60):
+        if made >= (4 if tier == 'thorough' else 2):
+            break
+        s0 = rscalar(rng); S_ = E.mul(s0, E.G)
+        Q_ = E.same_y_partner(S_)
+        if Q_ is None:
+            continue
+        t_ = rscalar(rng)
+        Pk = E.mul(pow(t_, -1, N), Q_)
+        r0 = (t_ - s0) % N
+        X_ = E.add(S_, Q_)
+        if Pk is None or X_ is None or not r0:
+            continue
+        e = (r0 - X_[0]) % N
+        made += 1
+        yield ('valid-with-same-y-summands', 'sm2_verify_raw %s %s %s%s' % (E.enc(Pk), H(e), H(r0), H(s0)), 'OK')
+    # public key OBJECTS that are not curve points (the `point` field is public): (X, 0) has [2]Q = O under the formulas, so with t even
+    # the sum is [s]G and r = e + x([s]G) "verifies" if the key is not validated; the point at infinity as key; one-bit near misses
+    for _ in range(6 if tier == 'thorough' else 3):
+        X0 = rng.randrange(1, P)
+        e = rng.getrandbits(256)
+        for _ in range(20):
+            s0 = rscalar(rng)
+            r0 = (e + E.mul(s0, E.G)[0]) % N
+            if r0 and (r0 + s0) % N and ((r0 + s0) % N) % 2 == 0:
+                break
+        raw0 = ':'.join(H(v * E.R % P) for v in (X0, 0, 1))
+        # (the digest-level hook entry performs no key validation - that is the job of the public `verify` - so the forgery is made for
+        # the PUBLIC interface: e = SM3(ZA || M) with ZA over the bogus coordinates, computed independently)
+        from .sm9py import sm3 as _sm3
+        idb = b'1234567812345678'; msg_ = rb(rng, 9)
+        za_ = _sm3((len(idb) * 8).to_bytes(2, 'big') + idb + E.a.to_bytes(32, 'big') + E.b.to_bytes(32, 'big') + E.G[0].to_bytes(32, 'big')
+                   + E.G[1].to_bytes(32, 'big') + X0.to_bytes(32, 'big') + (0).to_bytes(32, 'big'))
+        eh = int.from_bytes(_sm3(za_ + msg_), 'big')
+        for _ in range(40):
+            s1 = rscalar(rng)
+            r1 = (eh + E.mul(s1, E.G)[0]) % N
+            if r1 and (r1 + s1) % N and ((r1 + s1) % N) % 2 == 0:
+                break
+        yield ('pk-object-off-curve-order-2-forged', 'sm2_verify_p %s default %s %s%s' % (raw0, hx(msg_), H(r1), H(s1)), 'ERR')
+        yield ('pk-object-off-curve', 'sm2_verify_p %s default %s %s%s' % (raw0, hx(b'msg'), H(r0), H(s0)), 'ERR')
+        yield ('pk-object-at-infinity', 'sm2_verify_p %s default %s %s%s' % (E.jac(None, 1), hx(msg_), H(r1), H(s1)), 'ERR')
+    for bit, nx, ny in E.near_miss_points(rng, [3, 34, 40, 97, 130, 200] if tier != 'thorough' else range(1, 256, 7)):
+        yield ('pk-object-off-curve-one-bit', 'sm2_verify_p %s default %s %s%s' % (E.jac((nx, ny), 1), hx(b'm'), H(rscalar(rng)), H(rscalar(rng))), 'ERR')
+    # history on one thread: a valid signature under P (stored (X, Y, 1)), then the SAME signature under -P given as (X, Y, -1) (identical X and
+    # Y limbs): must be rejected whatever was verified before; then P again
+    for _ in range(2):
+        d = rscalar(rng, 1, N - 1); k = rscalar(rng); e = rng.getrandbits(256)
+        Pk = E.mul(d, E.G)
+        x1 = E.mul(k, E.G)[0]
+        r0 = (e + x1) % N
+        s0 = pow(1 + d, -1, N) * (k - r0 * d) % N
+        if not r0 or not s0:
+            continue
+        j1 = E.jac(Pk, 1).split(':')
+        negp = ':'.join([j1[0], j1[1], H((P - 1) * E.R % P)])
+        sig = H(r0) + H(s0)
+        yield ('pk-object-history-P-then-minus-P', 'seq sm2_verify_raw_p %s %s %s ; %s %s %s ; %s %s %s' % (':'.join(j1), H(e), sig, negp, H(e), sig, ':'.join(j1), H(e), sig), None)
     # r + s = n (t = 0 must be rejected): with e = r - x([s]G) the equation would hold under EVERY public key if t = n slipped through
     for s0 in [1, 2, N - 1] + [rscalar(rng) for _ in range(3 if tier == 'thorough' else 1)]:
         r0 = (N - s0) % N
@@ -830,6 +891,12 @@ def gen_c14_sm2(tier, rng):
         yield ('sm2-candidate-limbwise-near-order', 'sm2_keygen %s,%s' % (H(cand), good_k(rng)), None)
         if cand % 3 == 0 or tier == 'thorough':
             yield ('sm2-candidate-limbwise-near-order', 'sm2_sign %s default %s %s,%s' % (H(d), hx(b'm'), H(cand), good_k(rng)), None)
+    # long RUNS of out-of-range candidates before a good one (a capped retry loop with a fallback would use a bad one)
+    for nbad in ((3, 64, 127, 128, 129, 300, 1000) if tier == 'thorough' else (3, 128, 129, 300)):
+        bads = [rng.choice(['ff' * 32, H(N), H(N + rng.randrange(1, 1 << 200)), '00' * 32]) for _ in range(nbad)]
+        yield ('sm2-long-run-of-bad-candidates', 'sm2_keygen %s,%s' % (','.join(bads), good_k(rng)), None)
+        if nbad <= 300:
+            yield ('sm2-long-run-of-bad-candidates', 'sm2_sign %s default %s %s,%s' % (H(d), hx(b'm'), ','.join(bads), good_k(rng)), None)
     for v in (1, N - 1, N - 2):
         yield ('sm2-extreme-in-range', 'sm2_keygen %s' % H(v), None)
         yield ('sm2-extreme-in-range', 'sm2_sign %s default %s %s' % (H(d), hx(b'm'), H(v)), None)
@@ -1147,6 +1214,59 @@ def py_encrypt(Ppk, msg, k):
     x2, y2 = E.mul(k, Ppk)
     t_ = py_kdf(x2.to_bytes(32, 'big') + y2.to_bytes(32, 'big'), len(msg))
     return C1, _sm3(x2.to_bytes(32, 'big') + msg + y2.to_bytes(32, 'big')), bytes(a ^ b for a, b in zip(msg, t_))
+
+
+def special_ciphertext_cases(tier, rng):
+    """ciphertexts built independently in Python around special VALUES: C2 all zero (M = t: a legitimate ciphertext; the "all-zero" refusal
+    belongs to the key stream t, not to C2), C2 all ones, M all zero (C2 = t); C1 off the curve by ONE bit of the stored / canonical
+    y^2 with C2, C3 consistent for that C1 (a membership test that compares part of the words accepts it)"""
+    from .sm9py import sm3 as _sm3
+    b32 = lambda v: v.to_bytes(32, 'big')
+    for ln in ((1, 2, 19, 32, 33, 64) if tier == 'thorough' else (1, 19, 33)):
+        d_ = rscalar(rng, 1, N - 1); k_ = rscalar(rng)
+        Pk = E.mul(d_, E.G)
+        C1 = E.mul(k_, E.G)
+        x2, y2 = E.mul(k_, Pk)
+        t_ = py_kdf(b32(x2) + b32(y2), ln)
+        if not any(t_):
+            continue
+        for name, m_ in (('c2-all-zero-valid', t_), ('c2-all-ones-valid', bytes(a ^ 0xff for a in t_)), ('m-all-zero-valid', bytes(ln))):
+            c3 = _sm3(b32(x2) + m_ + b32(y2)); c2 = bytes(a ^ b for a, b in zip(m_, t_))
+            yield (name, 'sm2_dec %s 04%s%s%s%s 0 c1c3c2' % (H(d_), H(C1[0]), H(C1[1]), c3.hex(), c2.hex()), 'OK ' + m_.hex())
+            yield (name, 'sm2_dec %s %s%s%s 1 c1c2c3' % (H(d_), E.enc(C1, True), c2.hex(), c3.hex()), 'OK ' + m_.hex())
+    bits = [1, 33, 34, 45, 63, 70, 99, 128, 161, 222, 254] if tier != 'thorough' else range(0, 256, 5)
+    for mont in (True, False):
+        for bit, nx, ny in E.near_miss_points(rng, bits, mont):
+            d_ = rscalar(rng, 1, N - 1); m_ = rb(rng, 5)
+            try:
+                x2, y2 = E.mul(d_, (nx, ny))
+            except (ValueError, TypeError):
+                continue
+            t_ = py_kdf(b32(x2) + b32(y2), len(m_))
+            c3 = _sm3(b32(x2) + m_ + b32(y2)); c2 = bytes(a ^ b for a, b in zip(m_, t_))
+            yield ('c1-off-curve-one-bit-consistent', 'sm2_dec %s 04%s%s%s%s 0 c1c3c2' % (H(d_), H(nx), H(ny), c3.hex(), c2.hex()), 'ERR')
+
+
+def terminates_extra_sm2(tier, rng):
+    """C20: (a) every retry branch of signing / encryption is driven (class prefix `terminates-`: the call must return), (b) decryption of
+    truncated ciphertexts whose C1 prefix byte CONTRADICTS the `compressed` flag (04 + a valid 65-byte point with compressed = true, 02/03 with
+    compressed = false), every length around the two layouts"""
+    for cls, op, exp in gen_c03(tier, rng):
+        if cls.startswith('retry'):
+            yield ('terminates-sign-' + cls, op, exp)
+    for cls, op, exp in gen_c05(tier, rng):
+        if cls.startswith('retry-all-zero-t-crafted'):
+            yield ('terminates-encrypt-' + cls, op, exp)
+    d_ = rscalar(rng, 1, N - 1)
+    C1 = E.mul(rscalar(rng), E.G)
+    body = rb(rng, 140)
+    for comp_point, flag in ((False, '1'), (True, '0'), (False, '0'), (True, '1')):
+        pre = bytes.fromhex(E.enc(C1, comp_point))
+        lens = range(len(pre), len(pre) + 70) if tier == 'thorough' else list(range(len(pre), len(pre) + 70, 3)) + [len(pre) + 32, len(pre) + 33, 97, 98, 99, 65, 66, 129, 130]
+        for ln in lens:
+            ct = (pre + body)[:ln]
+            for order in ('c1c3c2', 'c1c2c3'):
+                yield ('terminates-decrypt-prefix-vs-flag', 'sm2_dec %s %s %s %s' % (H(d_), ct.hex(), flag, order), None)
 
 
 def p8_doc(dbytes, pub=None):
